@@ -1,6 +1,9 @@
 package props
 
 import (
+	"math/big"
+	"encoding/asn1"
+	"crypto/elliptic"
 	"bytes"
 	"context"
 	"encoding/hex"
@@ -106,6 +109,46 @@ var headTampers = []headTamper{
 		n.Sig = nil
 		return n
 	}},
+	{"sig-byte-appended", func(r *rand.Rand, h, o *head.SignedHead, oid Ident) *head.SignedHead {
+		n := cpHead(h)
+		n.Sig = append(append([]byte(nil), n.Sig...), byte(r.Intn(256)))
+		return n
+	}},
+	{"sig-last-byte-dropped", func(r *rand.Rand, h, o *head.SignedHead, oid Ident) *head.SignedHead {
+		n := cpHead(h)
+		if len(n.Sig) < 2 {
+			return nil
+		}
+		n.Sig = append([]byte(nil), n.Sig[:len(n.Sig)-1]...)
+		return n
+	}},
+	{"sig-ecdsa-s-negated", func(r *rand.Rand, h, o *head.SignedHead, oid Ident) *head.SignedHead {
+		// the other valid encoding of an ECDSA signature over the same message: (r, n-s)
+		var sig struct{ R, S *big.Int }
+		rest, err := asn1.Unmarshal(h.Sig, &sig)
+		if err != nil || len(rest) != 0 || sig.R == nil || sig.S == nil {
+			return nil
+		}
+		for _, order := range []*big.Int{elliptic.P256().Params().N, secp256k1N} {
+			if sig.S.Cmp(order) < 0 && sig.R.Cmp(order) < 0 {
+				n := cpHead(h)
+				neg := new(big.Int).Sub(order, sig.S)
+				b, err := asn1.Marshal(struct{ R, S *big.Int }{sig.R, neg})
+				if err != nil {
+					return nil
+				}
+				n.Sig = b
+				if oid.Type == "secp256k1" && order != secp256k1N {
+					continue
+				}
+				if oid.Type != "secp256k1" && order == secp256k1N {
+					continue
+				}
+				return n
+			}
+		}
+		return nil
+	}},
 	{"key-and-sig-swapped-from-other-head", func(r *rand.Rand, h, o *head.SignedHead, oid Ident) *head.SignedHead {
 		n := cpHead(h)
 		n.Pubkey = append([]byte(nil), o.Pubkey...)
@@ -125,6 +168,8 @@ var headTampers = []headTamper{
 		return n
 	}},
 }
+
+var secp256k1N, _ = new(big.Int).SetString("FFFFFFFFFFFFFFFFFFFFFFFFFFFFFFFEBAAEDCE6AF48A03BBFD25E8CD0364141", 16)
 
 type c03Case struct {
 	id, other Ident
@@ -156,6 +201,16 @@ func c03Gen(r *rand.Rand) (c03Case, error) {
 	return cs, err
 }
 
+// c03TamperKey: re-encodings of the signature bytes are classified per key type (what a signature scheme accepts as
+// "the same signature" differs between schemes)
+func c03TamperKey(name, keyType string) string {
+	switch name {
+	case "sig-ecdsa-s-negated", "sig-byte-appended", "sig-last-byte-dropped":
+		return name + ":" + keyType
+	}
+	return name
+}
+
 func (cs c03Case) tamper(r *rand.Rand, t headTamper) *head.SignedHead {
 	if t.name == "sig-from-other-head-same-key" {
 		o2, err := head.NewSignedHead(randCid(r), cs.topic, cs.id.Priv)
@@ -165,6 +220,9 @@ func (cs c03Case) tamper(r *rand.Rand, t headTamper) *head.SignedHead {
 		n := cpHead(cs.orig)
 		n.Sig = o2.Sig
 		return n
+	}
+	if t.name == "sig-ecdsa-s-negated" {
+		return t.f(r, cs.orig, cs.otherHead, cs.id) // (needs the signer's key type)
 	}
 	return t.f(r, cs.orig, cs.otherHead, cs.other)
 }
@@ -332,7 +390,7 @@ func c03Codec(c *vf.Ctx) {
 				}
 				signer, err := cand.Validate()
 				if err == nil && signer == cs.id.ID {
-					c.Fail(sub, i, "altered-head-validates:"+t.name, fmt.Sprintf("key type %s", cs.id.Type), w())
+					c.Fail(sub, i, "altered-head-validates:"+c03TamperKey(t.name, cs.id.Type), fmt.Sprintf("key type %s", cs.id.Type), w())
 				}
 			})
 			c.Eval(1)
@@ -467,7 +525,7 @@ func c03EndToEnd(c *vf.Ctx) {
 		switch {
 		case tk < len(headTampers):
 			t := headTampers[tk]
-			tname = t.name
+			tname = c03TamperKey(t.name, cs.id.Type)
 			// for "other-cid" point at a real, fetchable block so that a sync would be possible
 			th := cs.tamper(r, t)
 			if t.name == "other-cid" && len(chain.Cids) > 1 {
